@@ -1,0 +1,66 @@
+//go:build verif
+
+package taskctl
+
+import (
+	"time"
+
+	"github.com/taskctl/taskctl/pkg/runner"
+	"github.com/taskctl/taskctl/pkg/scheduler"
+)
+
+// VerifHooks is the hook table used by the verification harness (build tag "verif").
+// A nil entry is a no-op. The hooks are called synchronously on the goroutine that reaches the call site,
+// so a hook may block to park that goroutine.
+var VerifHooks struct {
+	// NewScheduler is called at the end of NewScheduler
+	NewScheduler func(s *Scheduler)
+	// LoopTop is called as the first statement of every iteration of the scheduling loop
+	LoopTop func(s *Scheduler, g *scheduler.ExecutionGraph)
+	// Visit is called as the first statement of the body of the range over the stages
+	Visit func(s *Scheduler, stage *scheduler.Stage)
+	// Cancel is called as the first statement of Scheduler.Cancel
+	Cancel func(s *Scheduler)
+	// Return is called after all stage goroutines have returned, before Schedule returns
+	Return func(s *Scheduler)
+}
+
+func verifNewScheduler(s *Scheduler) {
+	if h := VerifHooks.NewScheduler; h != nil {
+		h(s)
+	}
+}
+
+func verifLoopTop(s *Scheduler, g *scheduler.ExecutionGraph) {
+	if h := VerifHooks.LoopTop; h != nil {
+		h(s, g)
+	}
+}
+
+func verifVisit(s *Scheduler, stage *scheduler.Stage) {
+	if h := VerifHooks.Visit; h != nil {
+		h(s, stage)
+	}
+}
+
+func verifCancel(s *Scheduler) {
+	if h := VerifHooks.Cancel; h != nil {
+		h(s)
+	}
+}
+
+func verifReturn(s *Scheduler) {
+	if h := VerifHooks.Return; h != nil {
+		h(s)
+	}
+}
+
+// VerifSetPause sets the poll pause of the scheduling loop
+func (s *Scheduler) VerifSetPause(d time.Duration) {
+	s.pause = d
+}
+
+// VerifRunner returns the task runner the scheduler was created with
+func (s *Scheduler) VerifRunner() runner.Runner {
+	return s.taskRunner
+}
